@@ -404,8 +404,6 @@ func (g *gen) vary(p string) *rowIn {
 	return &n
 }
 
-func idxSame(a, b *rowIn) bool { return a.To == b.To && a.Note == b.Note }
-
 // one operation on key p; returns nil when the guarded stream must not touch p
 func (g *gen) opOn(p string) *opIn {
 	if g.deletedSaved(p) && (g.guarded || g.r.Chance(3, 5)) {
@@ -434,12 +432,6 @@ func (g *gen) opOn(p string) *opIn {
 			g.cur[p] = o.Row
 		}
 	default:
-		if g.guarded && present && g.saved[p] != nil && !idxSame(g.cur[p], g.saved[p]) {
-			// deleting a saved row with a pending index change is outside the guard
-			o = &opIn{T: "update", PK: p, Row: g.vary(p)}
-			g.cur[p] = o.Row
-			return o
-		}
 		if g.r.Chance(1, 3) {
 			o = &opIn{T: "delrow", Row: g.vary(p)}
 		} else {
